@@ -107,6 +107,8 @@ def run(sid, props=None):
                     shutil.copy(m.group(1), os.path.join(d, "replay-%s-%s" % (p, os.path.basename(m.group(1)))))
     finally:
         drop(wt)
+        # the run regenerated lean/Spine/Generated from the changed tree: regenerate it from /repo
+        sh("go run -tags verif ./cmd/translate -out ../lean/Spine/Generated", cwd=os.path.join(ROOT, "go"), env=dict(ENV, VERIF_REPO="/repo"))
     json.dump({"checked_at": time.strftime("%Y-%m-%dT%H:%M:%S"), "results": results}, open(os.path.join(d, "result.json"), "w"), indent=1)
     # restore the evidence of the unchanged tree is the caller's business (./check rewrites evidence/<id>.json)
     return results
